@@ -1,4 +1,477 @@
-import AGH.Spec.Rewrites
+/-
+C06 — custom DNS rewrites follow the documented precedence and always terminate.
+Property theorems only (helper lemmas live in AGH/Lemmas/Rewrites*.lean).
+
+Every theorem quantifies over ALL tables, names and query types and — because
+`slices.SortFunc` is unstable above 12 elements — over every `Sorter` (any
+function returning a sorted permutation; `Bytes → Sorter` lets the tie-breaking
+differ from one looked-up name to the next).
+-/
+import AGH.Lemmas.RewritesRun
+import AGH.Lemmas.RewritesOrder
 namespace AGH.C06
-theorem C06_stub : True := trivial
+open AGH AGH.Bytes
+
+/-! ## The model satisfies the spec monitor -/
+
+/-- Whatever sorted permutation the runtime's sort produces at each name, the
+result of `processRewrites` is acceptable to the spec. -/
+theorem C06_meets_spec_any_sort (srt : Bytes → Sorter) (tbl : List Entry) (h : Bytes) (q : Nat) :
+    Spec.specOK tbl h q (processRewritesWith srt tbl h q) = true := by
+  unfold Spec.specOK processRewritesWith processRun
+  have hview := find_view (srt h) tbl h q
+  split
+  · next hm =>
+    -- the table does not cover the name: `Result{}`
+    rw [hview.1] at hm
+    have hno : specCnames tbl h = [] := by
+      rw [List.eq_nil_iff_forall_not_mem]
+      intro e he
+      obtain ⟨h1, h2, _⟩ := mem_specCnames.mp he
+      have : tbl.any (matchesHost · h) = true := List.any_eq_true.mpr ⟨e, h1, h2⟩
+      rw [hm] at this; cases this
+    have hcov : tbl.any (Spec.covers · h) = false := by rw [covers_fun_eq]; exact hm
+    simp only [Spec.allowedFrom]
+    change (if (Spec.mostSpecific (specCnames tbl h)).isEmpty = true then _ else _) = true
+    rw [hno, mostSpecific_nil]
+    simp [Spec.finalOK, hcov, Out.empty]
+  · next hm =>
+    apply chase_allowed
+    · have := unvisited_le tbl []
+      omega
+    · left
+      refine ⟨rfl, rfl, rfl, ?_⟩
+      rw [← hview.1]
+      simpa using hm
+
+/-- `∀ i, specOK i (model i)` for the executable model (stable sort). -/
+theorem C06_model_meets_spec (tbl : List Entry) (h : Bytes) (q : Nat) :
+    Spec.specOK tbl h q (processRewrites tbl h q) = true :=
+  C06_meets_spec_any_sort _ tbl h q
+
+/-- The same for the rewrite part of `CheckHost` (queried name lower-cased). -/
+theorem C06_checkhost_meets_spec (srt : Bytes → Sorter) (tbl : List Entry) (h : Bytes) (q : Nat)
+    (hne : h ≠ []) :
+    Spec.specOK tbl (lower h) q (checkHostWith srt tbl h q) = true := by
+  unfold checkHostWith
+  rw [if_neg hne]
+  simp only
+  have hspec := C06_meets_spec_any_sort srt tbl (lower h) q
+  split
+  · exact hspec
+  · next hr =>
+    unfold Spec.specOK at hspec ⊢
+    exact allowedFrom_not_rewritten _ _ _ _ (by simpa using hr) _ _ _ hspec
+
+/-! ## Termination -/
+
+/-- The CNAME loop follows at most `tbl.length` CNAMEs, whatever the table
+(cycles of any length, starting anywhere) and the sort: the followed names are
+pairwise distinct answers of CNAME entries of the table.  (`chase` itself is
+accepted by Lean's termination checker with the measure `unvisited`, the number
+of table entries whose answer has not been visited.) -/
+theorem C06_terminates (srt : Bytes → Sorter) (tbl : List Entry) (h : Bytes) (q : Nat) :
+    (processRun srt tbl h q).visited.length ≤ tbl.length ∧
+    (processRun srt tbl h q).visited.Nodup ∧
+    (∀ v ∈ (processRun srt tbl h q).visited, ∃ e ∈ tbl, e.typ = .CNAME ∧ e.answer = v) := by
+  unfold processRun
+  split
+  · simp
+  · have hg := chase_ghost srt tbl q h h [] []
+    simp only at hg
+    obtain ⟨h1, h2, h3⟩ := hg
+    refine ⟨?_, h2 List.nodup_nil, ?_⟩
+    · have := unvisited_le tbl []
+      simp only [List.length_nil] at h1
+      omega
+    · intro v hv
+      rcases h3 v hv with h | h
+      · cases h
+      · exact h
+
+/-! ## No address from outside the table -/
+
+/-- Every address in the result belongs to a table entry of the requested
+family whose pattern covers the finally resolved name. -/
+theorem C06_ips_from_table (srt : Bytes → Sorter) (tbl : List Entry) (h : Bytes) (q : Nat)
+    (ip : Bytes) (hip : ip ∈ (processRewritesWith srt tbl h q).ips) :
+    ∃ e ∈ tbl, e.ip = some ip ∧ e.typ.code = q ∧ (q = qA ∨ q = qAAAA) ∧
+      matchesHost e (processRun srt tbl h q).final = true := by
+  unfold processRewritesWith processRun at hip
+  unfold processRun
+  split
+  · next hm => rw [if_pos hm] at hip; cases hip
+  · next hm =>
+    rw [if_neg hm] at hip
+    exact chase_ips srt tbl q h h [] [] ip hip
+
+/-! ## Precedence (match + sort + cut), for every sorted permutation -/
+
+/-- CNAME over address: whenever some CNAME entry covers the name, the entry
+the loop looks at (`rewrites[0]`) is a CNAME entry covering it — whatever
+address entries exist, exact or not — and it is a most specific one: exact if
+an exact CNAME entry exists, otherwise a wildcard of maximal length. -/
+theorem C06_cname_over_address (s : Sorter) (tbl : List Entry) (host : Bytes) (q : Nat)
+    (h : ∃ e ∈ tbl, e.typ = .CNAME ∧ matchesHost e host = true) :
+    ∃ c tl, (findRewritesWith s tbl host q).1 = c :: tl ∧ c.typ = .CNAME ∧ c ∈ tbl ∧
+      matchesHost c host = true ∧
+      (∀ e ∈ tbl, e.typ = .CNAME → matchesHost e host = true →
+        (isWildcard e.domain = false → isWildcard c.domain = false) ∧
+        (isWildcard c.domain = true → e.domain.length ≤ c.domain.length)) :=
+  find_cname_first s tbl host q h
+
+/-- Exact shadows wildcard: without a covering CNAME, if some exact entry
+bears on the query then exactly the exact applicable entries are kept (all of
+them, in some order) and no wildcard entry. -/
+theorem C06_exact_shadows_wildcard (s : Sorter) (tbl : List Entry) (host : Bytes) (q : Nat)
+    (hno : ∀ e ∈ tbl, matchesHost e host = true → e.typ ≠ .CNAME)
+    (hex : ∃ e ∈ candidates tbl host q, isWildcard e.domain = false) :
+    (findRewritesWith s tbl host q).1.Perm
+        ((candidates tbl host q).filter (fun e => !isWildcard e.domain)) ∧
+    (∀ e ∈ (findRewritesWith s tbl host q).1, isWildcard e.domain = false ∧ e.domain = host) := by
+  have hp := find_exact_perm s tbl host q hno hex
+  refine ⟨hp, ?_⟩
+  intro e he
+  have := hp.subset he
+  rw [List.mem_filter] at this
+  have hw : isWildcard e.domain = false := by simpa using this.2
+  exact ⟨hw, domain_eq_of_matches_not_wild (mem_candidates.mp this.1).2.1 hw⟩
+
+/-- Most specific wildcard wins: without a covering CNAME and without an exact
+applicable entry, a single wildcard entry is kept and no applicable entry has a
+longer pattern. -/
+theorem C06_most_specific_wildcard (s : Sorter) (tbl : List Entry) (host : Bytes) (q : Nat)
+    (hno : ∀ e ∈ tbl, matchesHost e host = true → e.typ ≠ .CNAME)
+    (hall : ∀ e ∈ candidates tbl host q, isWildcard e.domain = true)
+    (hne : candidates tbl host q ≠ []) :
+    ∃ w, (findRewritesWith s tbl host q).1 = [w] ∧ w ∈ candidates tbl host q ∧
+      ∀ e ∈ candidates tbl host q, e.domain.length ≤ w.domain.length :=
+  find_wild_single s tbl host q hno hall hne
+
+/-! ## Pass-through, exceptions, no-data, CNAME to upstream -/
+
+/-- A name the table does not cover is left alone. -/
+theorem C06_unmatched_untouched (srt : Bytes → Sorter) (tbl : List Entry) (h : Bytes) (q : Nat)
+    (hun : ∀ e ∈ tbl, matchesHost e h = false) :
+    processRewritesWith srt tbl h q = Out.empty ∧
+    dispatch (processRewritesWith srt tbl h q) = .pass := by
+  have : processRewritesWith srt tbl h q = Out.empty := by
+    unfold processRewritesWith processRun
+    have hm : (findRewritesWith (srt h) tbl h q).2 = false := by
+      rw [(find_view (srt h) tbl h q).1, List.any_eq_false]
+      intro e he
+      simp [hun e he]
+    rw [if_pos hm]
+  rw [this]
+  exact ⟨rfl, rfl⟩
+
+/-- `name → itself` / `pattern → itself` / "back to the queried name": if every
+most specific CNAME entry for the queried name is such an exception, the query
+passes through untouched, for every query type. -/
+theorem C06_cname_exception_passes (srt : Bytes → Sorter) (tbl : List Entry) (h : Bytes) (q : Nat)
+    (hsome : ∃ e ∈ tbl, e.typ = .CNAME ∧ matchesHost e h = true)
+    (hexc : ∀ e ∈ Spec.mostSpecific (specCnames tbl h), e.answer = h ∨ e.answer = e.domain) :
+    processRewritesWith srt tbl h q = Out.empty := by
+  obtain ⟨e0, he0, hc0, hm0⟩ := hsome
+  have hcand0 : e0 ∈ candidates tbl h q := mem_candidates.mpr ⟨he0, hm0, matchesQType_cname hc0 q⟩
+  have hview := find_view (srt h) tbl h q
+  have hmatched : (findRewritesWith (srt h) tbl h q).2 = true := by
+    rw [hview.1]; exact List.any_eq_true.mpr ⟨e0, he0, hm0⟩
+  unfold processRewritesWith processRun
+  rw [if_neg (by simp [hmatched])]
+  rcases hview.2 with ⟨hnil, _⟩ | ⟨a, rest, hsort, hfr, hamem, hmin⟩
+  · rw [hnil] at hcand0; cases hcand0
+  · obtain ⟨tl, htl⟩ := cut_cons_head a rest
+    have heq : (findRewritesWith (srt h) tbl h q).1 = a :: tl := by rw [hfr, htl]
+    have hac : a.typ = .CNAME := cname_of_le_cname (hmin e0 hcand0) hc0
+    have hex := hexc a (head_cname_mostSpecific hamem hac hmin)
+    have hex' : h = a.answer ∨ a.domain = a.answer := by
+      rcases hex with h' | h'
+      · exact Or.inl h'.symm
+      · exact Or.inr h'.symm
+    rw [chase_cons _ _ _ _ _ _ _ a tl heq, if_pos ⟨hmatched, hac⟩, if_pos hex']
+
+/-- `A` / `AAAA` exception: without a covering CNAME, an exact exception entry
+of the requested family makes the query pass through (not rewritten), whatever
+other entries say. -/
+theorem C06_family_exception_passes (srt : Bytes → Sorter) (tbl : List Entry) (h : Bytes) (q : Nat)
+    (hno : ∀ e ∈ tbl, matchesHost e h = true → e.typ ≠ .CNAME)
+    (hx : ∃ x ∈ tbl, x.domain = h ∧ isWildcard x.domain = false ∧ x.typ.code = q ∧ x.ip = none) :
+    (processRewritesWith srt tbl h q).rewritten = false ∧
+    dispatch (processRewritesWith srt tbl h q) = .pass := by
+  obtain ⟨x, hxt, hxd, hxw, hxc, hxip⟩ := hx
+  have hxm : matchesHost x h = true := by simp [matchesHost, hxd]
+  have hxn : x.typ ≠ .CNAME := hno x hxt hxm
+  have hfam := code_eq_iff_family hxn q hxc
+  have hxq : matchesQType x q = true := by
+    unfold matchesQType
+    rw [if_neg hxn]
+    have : ¬ (q ≠ qA ∧ q ≠ qAAAA) := by
+      rintro ⟨h1, h2⟩
+      rcases hfam with h' | h'
+      · exact h1 h'
+      · exact h2 h'
+    rw [if_neg this]
+    simp [hxc]
+  have hxcand : x ∈ candidates tbl h q := mem_candidates.mpr ⟨hxt, hxm, hxq⟩
+  have hp := find_exact_perm (srt h) tbl h q hno ⟨x, hxcand, hxw⟩
+  have hxin : x ∈ (findRewritesWith (srt h) tbl h q).1 :=
+    hp.symm.subset (List.mem_filter.mpr ⟨hxcand, by simp [hxw]⟩)
+  have hview := find_view (srt h) tbl h q
+  have hmatched : (findRewritesWith (srt h) tbl h q).2 = true := by
+    rw [hview.1]; exact List.any_eq_true.mpr ⟨x, hxt, hxm⟩
+  have hr : (processRewritesWith srt tbl h q).rewritten = false := by
+    unfold processRewritesWith processRun
+    rw [if_neg (by simp [hmatched])]
+    cases hl : (findRewritesWith (srt h) tbl h q).1 with
+    | nil => rw [hl] at hxin; cases hxin
+    | cons rw tl =>
+      have hrwn : rw.typ ≠ .CNAME := by
+        have : rw ∈ candidates tbl h q := find_mem_candidates _ _ _ _ rw (by rw [hl]; simp)
+        obtain ⟨m1, m2, _⟩ := mem_candidates.mp this
+        exact hno rw m1 m2
+      rw [chase_cons _ _ _ _ _ _ _ rw tl hl, if_neg (fun hc => hrwn hc.2)]
+      have hall : ∀ e ∈ rw :: tl, e.typ ≠ .CNAME := by
+        intro e he
+        have : e ∈ candidates tbl h q := find_mem_candidates _ _ _ _ e (by rw [hl]; exact he)
+        obtain ⟨m1, m2, _⟩ := mem_candidates.mp this
+        exact hno e m1 m2
+      apply (setRewriteResult_view _ (rw :: tl) q hall).1
+      rw [List.any_eq_true]
+      refine ⟨x, by rw [← hl]; exact hxin, ?_⟩
+      simp [Spec.passesFamily, hxip, hxc]
+  refine ⟨hr, ?_⟩
+  unfold dispatch
+  simp [hr]
+
+/-- No data: a name the table covers, without a covering CNAME and without a
+value or exception for the requested type (other family only, or a query type
+other than A/AAAA), gets an empty successful answer produced locally — it is
+neither passed through nor sent upstream. -/
+theorem C06_nodata (srt : Bytes → Sorter) (tbl : List Entry) (h : Bytes) (q : Nat)
+    (hcov : ∃ e ∈ tbl, matchesHost e h = true)
+    (hnoval : ∀ e ∈ tbl, matchesHost e h = true →
+      e.typ ≠ .CNAME ∧ Spec.value e q = none ∧ Spec.passesFamily e q = false) :
+    processRewritesWith srt tbl h q = ⟨true, [], []⟩ ∧
+    dispatch (processRewritesWith srt tbl h q) = .answer [] [] := by
+  obtain ⟨e0, he0, hm0⟩ := hcov
+  have hview := find_view (srt h) tbl h q
+  have hmatched : (findRewritesWith (srt h) tbl h q).2 = true := by
+    rw [hview.1]; exact List.any_eq_true.mpr ⟨e0, he0, hm0⟩
+  have hres : processRewritesWith srt tbl h q = ⟨true, [], []⟩ := by
+    unfold processRewritesWith processRun
+    rw [if_neg (by simp [hmatched])]
+    cases hl : (findRewritesWith (srt h) tbl h q).1 with
+    | nil => rw [chase_nil _ _ _ _ _ _ _ hl]
+    | cons rw tl =>
+      have hfacts : ∀ e ∈ rw :: tl,
+          e.typ ≠ .CNAME ∧ Spec.value e q = none ∧ Spec.passesFamily e q = false := by
+        intro e he
+        have : e ∈ candidates tbl h q := find_mem_candidates _ _ _ _ e (by rw [hl]; exact he)
+        obtain ⟨m1, m2, _⟩ := mem_candidates.mp this
+        exact hnoval e m1 m2
+      rw [chase_cons _ _ _ _ _ _ _ rw tl hl, if_neg (fun hc => (hfacts rw (by simp)).1 hc.2)]
+      have hany : (rw :: tl).any (Spec.passesFamily · q) = false := by
+        rw [List.any_eq_false]
+        intro e he
+        simp [(hfacts e he).2.2]
+      rw [(setRewriteResult_view _ (rw :: tl) q (fun e he => (hfacts e he).1)).2 hany]
+      have : (rw :: tl).filterMap (Spec.value · q) = [] := by
+        rw [List.filterMap_eq_nil_iff]
+        intro e he
+        exact (hfacts e he).2.1
+      rw [this]
+      rfl
+  rw [hres]
+  exact ⟨rfl, rfl⟩
+
+/-- CNAME to upstream: when every most specific CNAME entry for the queried
+name points at the same name `t` (no exception) and the table does not cover
+`t`, the result carries the canonical name `t` and no address; dnsforward then
+asks the upstream for `t` (and restores the original question afterwards). -/
+theorem C06_cname_upstream (srt : Bytes → Sorter) (tbl : List Entry) (h t : Bytes) (q : Nat)
+    (hsome : ∃ e ∈ tbl, e.typ = .CNAME ∧ matchesHost e h = true)
+    (hall : ∀ e ∈ Spec.mostSpecific (specCnames tbl h), e.answer = t ∧ e.domain ≠ t)
+    (hth : t ≠ h) (htne : t ≠ [])
+    (hun : ∀ e ∈ tbl, matchesHost e t = false) :
+    processRewritesWith srt tbl h q = ⟨true, t, []⟩ ∧
+    dispatch (processRewritesWith srt tbl h q) = .upstream t := by
+  obtain ⟨e0, he0, hc0, hm0⟩ := hsome
+  have hcand0 : e0 ∈ candidates tbl h q := mem_candidates.mpr ⟨he0, hm0, matchesQType_cname hc0 q⟩
+  have hview := find_view (srt h) tbl h q
+  have hmatched : (findRewritesWith (srt h) tbl h q).2 = true := by
+    rw [hview.1]; exact List.any_eq_true.mpr ⟨e0, he0, hm0⟩
+  have hres : processRewritesWith srt tbl h q = ⟨true, t, []⟩ := by
+    unfold processRewritesWith processRun
+    rw [if_neg (by simp [hmatched])]
+    rcases hview.2 with ⟨hnil, _⟩ | ⟨a, rest, hsort, hfr, hamem, hmin⟩
+    · rw [hnil] at hcand0; cases hcand0
+    · obtain ⟨tl, htl⟩ := cut_cons_head a rest
+      have heq : (findRewritesWith (srt h) tbl h q).1 = a :: tl := by rw [hfr, htl]
+      have hac : a.typ = .CNAME := cname_of_le_cname (hmin e0 hcand0) hc0
+      obtain ⟨hat, hadt⟩ := hall a (head_cname_mostSpecific hamem hac hmin)
+      have h1 : ¬ (h = a.answer ∨ a.domain = a.answer) := by
+        rw [hat]
+        rintro (h' | h')
+        · exact hth h'.symm
+        · exact hadt h'
+      have h2 : ¬ (h = a.answer ∧ isWildcard a.domain = true) := by
+        rw [hat]; exact fun h' => hth h'.1.symm
+      have h3 : ¬ (([] : List Bytes).contains a.answer = true) := by simp
+      rw [chase_cons _ _ _ _ _ _ _ a tl heq, if_pos ⟨hmatched, hac⟩, if_neg h1, if_neg h2, if_neg h3, hat]
+      -- at `t` the table has nothing
+      have hnil : (findRewritesWith (srt t) tbl t q).1 = [] := by
+        rcases (find_view (srt t) tbl t q).2 with ⟨_, hfr'⟩ | ⟨b, _, _, _, hb, _⟩
+        · exact hfr'
+        · obtain ⟨m1, m2, _⟩ := mem_candidates.mp hb
+          rw [hun b m1] at m2; cases m2
+      rw [chase_nil _ _ _ _ _ _ _ hnil]
+  rw [hres]
+  refine ⟨rfl, ?_⟩
+  unfold dispatch
+  simp [htne]
+
+/-! ## Order of entries and tie-breaking of the sort
+
+Full statement (DESIGN: `C06_order_independent`, `C06_sort_agnostic`):
+
+    ∀ t₁ t₂ h q srt₁ srt₂, t₁.Perm t₂ →
+      OutEquiv (processRewritesWith srt₁ t₁ h q) (processRewritesWith srt₂ t₂ h q)
+
+It is FALSE for the code: `findRewrites` keeps ONE of several equally specific
+wildcard entries and follows ONE of several equally specific CNAME entries —
+the first in table order (stable sort, ≤ 12 candidates) or whichever the
+unstable sort leaves first.  `C06_counterexample_*` exhibit this on concrete
+tables; `C06_order_independent_partial` proves the statement for tables without
+such ties. -/
+
+/-- Swapping `*.x.com → AAAA` and `*.x.com → 1.1.1.1` changes the answer to
+`a.x.com A` from "empty" to `1.1.1.1`. -/
+theorem C06_counterexample_wildcard_tie :
+    ∃ t₁ t₂ : List Entry, ∃ h : Bytes, ∃ q : Nat, t₁.Perm t₂ ∧
+      ¬ Spec.OutEquiv (processRewrites t₁ h q) (processRewrites t₂ h q) := by
+  refine ⟨[ent "*.x.com" "AAAA", ent "*.x.com" "1.1.1.1" (some true)],
+          [ent "*.x.com" "1.1.1.1" (some true), ent "*.x.com" "AAAA"],
+          asc "a.x.com", 1, List.Perm.swap _ _ _, ?_⟩
+  have e₁ : processRewrites [ent "*.x.com" "AAAA", ent "*.x.com" "1.1.1.1" (some true)]
+      (asc "a.x.com") 1 = ⟨true, [], []⟩ := by decide +kernel
+  have e₂ : processRewrites [ent "*.x.com" "1.1.1.1" (some true), ent "*.x.com" "AAAA"]
+      (asc "a.x.com") 1 = ⟨true, [], [asc "1.1.1.1"]⟩ := by decide +kernel
+  rw [e₁, e₂]
+  rintro ⟨_, h2⟩
+  have := (h2 rfl).2.length_eq
+  simp at this
+
+/-- Two CNAME entries for one name: the first in table order is followed. -/
+theorem C06_counterexample_cname_tie :
+    ∃ t₁ t₂ : List Entry, ∃ h : Bytes, ∃ q : Nat, t₁.Perm t₂ ∧
+      ¬ Spec.OutEquiv (processRewrites t₁ h q) (processRewrites t₂ h q) := by
+  refine ⟨[ent "a.x.com" "b.x.com", ent "a.x.com" "c.x.com"],
+          [ent "a.x.com" "c.x.com", ent "a.x.com" "b.x.com"],
+          asc "a.x.com", 1, List.Perm.swap _ _ _, ?_⟩
+  have e₁ : processRewrites [ent "a.x.com" "b.x.com", ent "a.x.com" "c.x.com"]
+      (asc "a.x.com") 1 = ⟨true, asc "b.x.com", []⟩ := by decide +kernel
+  have e₂ : processRewrites [ent "a.x.com" "c.x.com", ent "a.x.com" "b.x.com"]
+      (asc "a.x.com") 1 = ⟨true, asc "c.x.com", []⟩ := by decide +kernel
+  rw [e₁, e₂]
+  rintro ⟨_, h2⟩
+  have := (h2 rfl).1
+  revert this
+  decide +kernel
+
+/-- On a tie-free table the result (decision, canonical name, addresses up to
+order) depends neither on the order of the entries nor on how the sort breaks
+ties. -/
+theorem C06_order_independent_partial (srt₁ srt₂ : Bytes → Sorter) (t₁ t₂ : List Entry)
+    (h : Bytes) (q : Nat) (hp : t₁.Perm t₂) (htf : Spec.TieFree t₁ q) :
+    Spec.OutEquiv (processRewritesWith srt₁ t₁ h q) (processRewritesWith srt₂ t₂ h q) :=
+  process_order srt₁ srt₂ t₁ t₂ h q hp htf
+
+/-- In particular the unstable sort cannot show on a tie-free table. -/
+theorem C06_sort_agnostic_partial (srt : Bytes → Sorter) (tbl : List Entry) (h : Bytes) (q : Nat)
+    (htf : Spec.TieFree tbl q) :
+    Spec.OutEquiv (processRewritesWith srt tbl h q) (processRewrites tbl h q) :=
+  process_order srt _ tbl tbl h q (List.Perm.refl _) htf
+
+/-! ## Non-vacuity: the AGHTechDoc examples and instances of the hypotheses -/
+
+section Examples
+
+/-- doc "A record" -/
+example : processRewrites [ent "host.com" "1.2.3.4" (some true)] (asc "host.com") 1 =
+    ⟨true, [], [asc "1.2.3.4"]⟩ := by decide +kernel
+example : dispatch (processRewrites [ent "host.com" "1.2.3.4" (some true)] (asc "host.com") 28) =
+    .answer [] [] := by decide +kernel
+
+/-- doc "CNAME record": resolved upstream under the canonical name -/
+example : dispatch (processRewrites [ent "sub.host.com" "host.com"] (asc "sub.host.com") 1) =
+    .upstream (asc "host.com") := by decide +kernel
+
+/-- doc "CNAME+A records" -/
+example : processRewrites [ent "sub.host.com" "host.com", ent "host.com" "1.2.3.4" (some true)]
+    (asc "sub.host.com") 1 = ⟨true, asc "host.com", [asc "1.2.3.4"]⟩ := by decide +kernel
+example : dispatch (processRewrites
+    [ent "sub.host.com" "host.com", ent "host.com" "1.2.3.4" (some true)] (asc "sub.host.com") 28) =
+    .upstream (asc "host.com") := by decide +kernel
+
+/-- doc "Wildcard CNAME+A record with CNAME exception" -/
+example : processRewrites
+    [ent "*.host.com" "1.2.3.4" (some true), ent "pass.host.com" "pass.host.com"]
+    (asc "my.host.com") 1 = ⟨true, [], [asc "1.2.3.4"]⟩ := by decide +kernel
+example : processRewrites
+    [ent "*.host.com" "1.2.3.4" (some true), ent "pass.host.com" "pass.host.com"]
+    (asc "pass.host.com") 1 = Out.empty := by decide +kernel
+
+/-- doc "A record with AAAA exception" -/
+example : processRewrites [ent "host.com" "1.2.3.4" (some true), ent "host.com" "AAAA"]
+    (asc "host.com") 1 = ⟨true, [], [asc "1.2.3.4"]⟩ := by decide +kernel
+example : (processRewrites [ent "host.com" "1.2.3.4" (some true), ent "host.com" "AAAA"]
+    (asc "host.com") 28).rewritten = false := by decide +kernel
+
+/-- doc "pass A only" -/
+example : (processRewrites [ent "host.com" "A"] (asc "host.com") 1).rewritten = false := by
+  decide +kernel
+example : processRewrites [ent "host.com" "A"] (asc "host.com") 28 = ⟨true, [], []⟩ := by
+  decide +kernel
+
+/-- a cycle that does not start at the queried name: a → b → c → b -/
+example : processRun (fun _ => stable)
+    [ent "a.x.com" "b.x.com", ent "b.x.com" "c.x.com", ent "c.x.com" "b.x.com"] (asc "a.x.com") 1 =
+    ⟨⟨true, asc "c.x.com", []⟩, asc "b.x.com", [asc "c.x.com", asc "b.x.com"]⟩ := by decide +kernel
+
+/-- a cycle through the queried name is the "name to itself" exception -/
+example : processRewrites [ent "a.x.com" "b.x.com", ent "b.x.com" "a.x.com"] (asc "a.x.com") 1 =
+    Out.empty := by decide +kernel
+
+/-- exact CNAME beats wildcard CNAME beats exact address; most specific wildcard wins -/
+example : processRewrites
+    [ent "a.b.x.com" "1.1.1.1" (some true), ent "*.x.com" "t.net", ent "*.b.x.com" "u.net"]
+    (asc "a.b.x.com") 1 = ⟨true, asc "u.net", []⟩ := by decide +kernel
+
+/-- the hypotheses of `C06_order_independent_partial` hold for a table with
+wildcards, a CNAME chain and both families -/
+example : Spec.TieFree
+    [ent "*.x.com" "1.1.1.1" (some true), ent "*.x.com" "::1" (some false),
+     ent "a.x.com" "b.x.com", ent "b.x.com" "1.1.1.2" (some true)] 1 := by
+  constructor <;> decide +kernel
+
+/-- … and fail for the counterexample table -/
+example : ¬ Spec.TieFree [ent "*.x.com" "AAAA", ent "*.x.com" "1.1.1.1" (some true)] 1 := by
+  intro h
+  have := h.2 (ent "*.x.com" "AAAA") (by simp) (ent "*.x.com" "1.1.1.1" (some true)) (by simp)
+    (by decide +kernel) (by decide +kernel) (by decide +kernel) (by decide +kernel)
+    (by decide +kernel) (by decide +kernel)
+  revert this
+  decide +kernel
+
+/-- the hypotheses of `C06_nodata` (only an AAAA value, A asked) -/
+example : ∀ e ∈ [ent "host.com" "::1" (some false)], matchesHost e (asc "host.com") = true →
+    e.typ ≠ .CNAME ∧ Spec.value e 1 = none ∧ Spec.passesFamily e 1 = false := by decide +kernel
+
+/-- the hypotheses of `C06_cname_upstream` -/
+example : ∀ e ∈ Spec.mostSpecific (specCnames [ent "sub.host.com" "host.com"] (asc "sub.host.com")),
+    e.answer = asc "host.com" ∧ e.domain ≠ asc "host.com" := by decide +kernel
+
+end Examples
+
 end AGH.C06
